@@ -167,9 +167,11 @@ Step ==
        LET m == Apply(g, e) IN
        IF e.obs.panic = "" /\ ObsMatches(e, m)
             /\ (e.op = "cloneprobe" => SameRows(g.kind, e.cloneobs, SetCell(g, e.i, e.p, e.c).rows))
+            /\ (e.op = "badappendcolumns" => e.rejected)      \* and, by Apply, nothing was appended
+            /\ (e.op = "cloneappend" => SameRows(g.kind, e.cloneobs, [g EXCEPT !.rows[1].cells = Append(@, e.c2)].rows))
          THEN g' = WithObservedStrands(e, m) /\ UNCHANGED <<ok, fails>>
          ELSE /\ ok' = FALSE /\ UNCHANGED g
-              /\ fails' = Append(fails, <<l, e.op \o ": " \o (IF e.obs.panic = "" /\ ObsMatches(e, m) THEN "clone is not an independent copy" ELSE Why(e, m))>>)
+              /\ fails' = Append(fails, <<l, e.op \o ": " \o (IF e.obs.panic = "" /\ ObsMatches(e, m) THEN (IF e.op = "badappendcolumns" THEN "a column of the wrong height was accepted" ELSE "clone is not an independent copy") ELSE Why(e, m))>>)
 
 TInit == l = 1 /\ ok = FALSE /\ fails = <<>> /\ drift = <<>> /\ g = [kind |-> "lin", alpha |-> "DNA", rows |-> <<[off |-> 0, cells |-> <<>>, strand |-> 1]>>]
 TSpec == TInit /\ [][Step]_<<l, g, ok, fails, drift>>
